@@ -1,8 +1,9 @@
 (** extraction of the C17 model: the storage machine (as-is) and the layout specification, 64-bit words *)
 Require Import FastZ.
-From Dashu Require Import Base.Prelude Base.Words Int.StorageModel Int.StorageOps2.
+From Dashu Require Import Base.Prelude Base.Words Int.StorageModel Int.StorageOps2 Int.ScratchModel.
+From DashuGen Require Import StorageGen.
 Definition w64 : Z := 64.
-Definition maxcap64 : Z := (2 ^ 64 - 1) / 64.
+Definition maxcap64 : Z := gen_max_capacity (2 ^ 64 - 1) 64.   (* Buffer::MAX_CAPACITY, regenerated from buffer.rs *)
 Definition step64 := step w64 maxcap64.
 (** the extended machine (round 3): pow, sqr, gcd (the side the Lehmer kernel leaves the result in is an input), div_rem,
     next_power_of_two, clear_high_bits, split_bits *)
@@ -13,6 +14,12 @@ Definition repr_ok64 := repr_ok_b w64 maxcap64.
 Definition rvalue64 := rvalue w64.
 Definition default_capacity64 := default_capacity maxcap64.
 Definition max_compact_capacity64 := max_compact_capacity maxcap64.
+(** scratch memory (round 3): words reserved by mul::memory_requirement_exact(_, min), words the allocation plans of the
+    general product ask for, and the offset machine itself on a chunk of `words` words at an aligned address *)
+Definition scratch_reserved (la lb : Z) : Z := gen_mul_requirement (Z.min la lb).
+Definition scratch_demand (la lb : Z) : Z := dgen (S (Z.to_nat (Z.min la lb))) (Z.max la lb) (Z.min la lb).
+Definition scratch_run (la lb words : Z) : bool :=
+  match mul_gen 8 (2 ^ 64 - 1) (S (Z.to_nat (Z.min la lb))) (Z.max la lb) (Z.min la lb) (chunk 8 4096 words) with Ok _ => true | _ => false end.
 Extraction "model.ml"
   step64 step2_64 drop_all64 layout_ok64 repr_ok64 rvalue64 signed_cap rwords rcap mem0 zero
-  default_capacity64 max_compact_capacity64 nlive nwords.
+  default_capacity64 max_compact_capacity64 nlive nwords scratch_reserved scratch_demand scratch_run.
